@@ -426,6 +426,7 @@ func driveC02(t *testing.T, out *vEmitter) {
 // vConcurrentIssue: sessions issued to different users at the same time.  Whatever the interleaving, the credential
 // handed to a request decodes to exactly the session of that request (both stores).
 func vConcurrentIssue(t *testing.T, out *vEmitter) {
+	defer vConcurrentTamper(t, out)
 	for _, redis := range []bool{false, true} {
 		e := vNewEnv(t, vEnvCfg{redis: redis, mod: func(o *options.Options) { o.Cookie.Refresh = 0 }})
 		workers, rounds := vPick(8, 16), vPick(120, 1500)
@@ -471,6 +472,87 @@ func vConcurrentIssue(t *testing.T, out *vEmitter) {
 		if wrong > 0 {
 			first["wrong"], first["of"] = wrong, total
 			out.Violation("tamper/issued-credential-decodes-to-other-session", "a credential issued to one request decodes to another request's session (concurrent saves)", first)
+		}
+	}
+}
+
+// vConcurrentTamper: altered credentials presented WHILE genuine ones are being validated on other goroutines.
+// A splice of two issued cookies (value of one, timestamp and signature of the other) and a one-character edit
+// must be refused every time, whatever else is in flight.
+func vConcurrentTamper(t *testing.T, out *vEmitter) {
+	for _, redis := range []bool{false, true} {
+		e := vNewEnv(t, vEnvCfg{redis: redis})
+		r := vRand()
+		sa, sb := vMkSession(r, "alice-concurrent", 60), vMkSession(r, "mallory-concurrent", 60)
+		ca, cb := e.issue("app.example.com", sa), e.issue("app.example.com", sb)
+		if len(ca) != 1 || len(cb) != 1 {
+			t.Fatalf("expected single cookies, got %d and %d", len(ca), len(cb))
+		}
+		fa, fb := strings.SplitN(ca[0].v, "|", 3), strings.SplitN(cb[0].v, "|", 3)
+		if len(fa) != 3 || len(fb) != 3 {
+			t.Fatal("unexpected cookie shape")
+		}
+		splice := []vNV{{ca[0].n, fa[0] + "|" + fb[1] + "|" + fb[2]}}
+		edited := []vNV{{cb[0].n, vFlip(cb[0].v, 3)}}
+		var wg sync.WaitGroup
+		stop := make(chan struct{})
+		var mu sync.Mutex
+		accepted, attempts, genuineFailed, panics := 0, 0, 0, 0
+		var first map[string]interface{}
+		load := func(cs []vNV) (s *sessionsapi.SessionState, err error, pan interface{}) {
+			defer func() { pan = recover() }()
+			s, err = e.p.sessionStore.Load(vReqWith("app.example.com", cs))
+			return
+		}
+		for w := 0; w < 4; w++ {
+			wg.Add(1)
+			go func() {
+				defer wg.Done()
+				for {
+					select {
+					case <-stop:
+						return
+					default:
+					}
+					got, err, pan := load(cb)
+					mu.Lock()
+					if pan != nil {
+						panics++
+					} else if err != nil || got == nil || got.Email != sb.Email {
+						genuineFailed++
+					}
+					mu.Unlock()
+				}
+			}()
+		}
+		deadline := time.Now().Add(time.Duration(vPick(400, 4000)) * time.Millisecond)
+		for time.Now().Before(deadline) {
+			for _, alt := range [][]vNV{splice, edited} {
+				got, err, pan := load(alt)
+				mu.Lock()
+				attempts++
+				if pan != nil {
+					panics++
+				} else if err == nil && got != nil {
+					accepted++
+					if first == nil {
+						first = map[string]interface{}{"redis": redis, "decodes_to": got.Email, "presented": "value of one issued cookie under timestamp and signature of another, or one character changed"}
+					}
+				}
+				mu.Unlock()
+			}
+		}
+		close(stop)
+		wg.Wait()
+		out.Obs("concurrent-tamper", true, vL(vBool(redis), vI(int64(attempts)), vI(int64(accepted)), vI(int64(genuineFailed)), vI(int64(panics))))
+		out.Stat("concurrent_tamper_attempts", attempts)
+		if accepted > 0 {
+			first["accepted"], first["of"] = accepted, attempts
+			out.Violation("tamper/accepted-different-session", "an altered credential was accepted and decodes to something other than the issued session", first)
+		}
+		if genuineFailed > 0 || panics > 0 {
+			out.Violation("tamper/genuine-credential-rejected-under-load", "an issued credential was refused, or validation panicked, while other validations were in flight",
+				map[string]interface{}{"redis": redis, "refused": genuineFailed, "panics": panics})
 		}
 	}
 }
